@@ -81,7 +81,12 @@ for d in sorted(os.listdir(os.path.join(ROOT, "seeded"))):
 out = ["### 10.6 Seeded changes (from independent sub-agents) and which check catches them", "",
        "Each directory `seeded/<id>/` holds `patch.diff`, the seeder's demonstration (`demo/`, `verify.sh`) and `meta.json`.",
        "Every change compiles, passes the existing tests of the crates it touches, and its demonstration fails with and passes",
-       "without the patch (`verify.sh` re-run by the integrator in the seeder's scratch worktree).", "",
+       "without the patch (`verify.sh` re-run by the integrator in the seeder's scratch worktree).",
+       "The seeders saw only the property text and their own worktree. `caught by` lists up to three of the new (not `known`) signatures",
+       "the quick tier printed at seed 1 with the patch applied (`lib/muttest.sh`, logs under `seeded/logs/`).",
+       "Monitors that missed their seeded change at first and were strengthened (what was added is in the notes column): "
+       + ", ".join(sorted(k for k, v in notes.items() if "missed" in v.get("notes", ""))) + ".",
+       "Patches that had to be ported because later `fix:` commits touched their context: C12, C20 (`patch.orig.diff` is the original).", "",
        "| seeded | property | what it needs to manifest | caught by (quick, seed 1) | notes |", "|---|---|---|---|---|"]
 esc = lambda s: str(s).replace("|", "\\|").replace("\n", " ")
 for d, prop, m in rows:
